@@ -49,6 +49,32 @@ MUTS = {
  'M11_flags_kw_not_sticky': ('katdal/dataset.py',
    "        self._selection.update(kwargs)\n",
    "        self._selection.update(kwargs)\n        if 'flags' not in kwargs:\n            self._selection['flags'] = 'all'\n"),
+ # ---- WHERE data_lost is added: lost map / _apply_data_lost (round 3)
+ 'P1_seeded_C16_7_shape_fast_path': ('katdal/vis_flags_weights.py',
+   "        if isinstance(chunk, PlaceholderChunk):\n            if flags is orig_flags:",
+   "        if isinstance(chunk, PlaceholderChunk):\n            if chunk.shape == orig_flags.shape:\n                return orig_flags | DATA_LOST\n            if flags is orig_flags:"),
+ 'P2_lost_dumps_flagged_on_all_channels': ('katdal/vis_flags_weights.py',
+   "flags[slices] |= DATA_LOST", "flags[slices[:1]] |= DATA_LOST"),
+ 'P3_only_first_lost_piece_applied': ('katdal/vis_flags_weights.py',
+   "            flags[slices] |= DATA_LOST\n", "            flags[slices] |= DATA_LOST\n            break\n"),
+ 'P4_lost_map_skips_weights_channel': ('katdal/vis_flags_weights.py',
+   "            if array_name == 'flags':\n                continue\n            # Source keys",
+   "            if array_name in ('flags', 'weights_channel'):\n                continue\n            # Source keys"),
+ 'P5_intersect_chunks_swapped': ('katdal/vis_flags_weights.py',
+   "intersections = intersect_chunks(darray['flags'].chunks, chunks)", "intersections = intersect_chunks(chunks, darray['flags'].chunks)"),
+ 'P6_piece_marked_from_start_of_flags_chunk': ('katdal/vis_flags_weights.py',
+   "                    dst_index, slices = zip(*piece)\n",
+   "                    dst_index, slices = zip(*piece)\n                    slices = (slice(0, slices[0].stop),) + slices[1:]\n"),
+ 'P7_lost_map_only_from_vis': ('katdal/vis_flags_weights.py',
+   "            if array_name == 'flags':\n                continue\n            # Source keys",
+   "            if array_name != 'correlator_data':\n                continue\n            # Source keys"),
+ 'P8_whole_flags_chunk_when_time_extent_covered': ('katdal/vis_flags_weights.py',
+   "                    lost_map[dst_index].extend([src_key, slices])",
+   "                    if slices[0].stop - slices[0].start == darray['flags'].chunks[0][dst_index[0]]:\n                        slices = (slices[0],) + tuple(slice(0, n[i]) for n, i in zip(darray['flags'].chunks[1:], dst_index[1:]))\n                    lost_map[dst_index].extend([src_key, slices])"),
+ # ---- first reads of one flags indexer by several threads (round 3)
+ 'Q1_seeded_C16_8_double_checked_locking_publishes_early': ('katdal/lazy_indexer.py', '        with self._lock:\n            if self._dataset is None:\n                if isinstance(self._orig_dataset, DaskLazyIndexer):\n                    self._orig_dataset = self._orig_dataset.dataset\n                dataset = dask_getitem(self._orig_dataset, self.keep)\n                for transform in self.transforms:\n                    dataset = transform(dataset)\n                self._dataset = dataset\n                self._orig_dataset = None\n            return self._dataset\n', '        if self._dataset is None:\n            with self._lock:\n                if self._dataset is None:\n                    if isinstance(self._orig_dataset, DaskLazyIndexer):\n                        self._orig_dataset = self._orig_dataset.dataset\n                    self._dataset = dask_getitem(self._orig_dataset, self.keep)\n                    for transform in self.transforms:\n                        self._dataset = transform(self._dataset)\n                    self._orig_dataset = None\n        return self._dataset\n'),
+ 'Q3_no_lock_and_graph_published_before_the_transforms': ('katdal/lazy_indexer.py', '        with self._lock:\n            if self._dataset is None:\n                if isinstance(self._orig_dataset, DaskLazyIndexer):\n                    self._orig_dataset = self._orig_dataset.dataset\n                dataset = dask_getitem(self._orig_dataset, self.keep)\n                for transform in self.transforms:\n                    dataset = transform(dataset)\n                self._dataset = dataset\n                self._orig_dataset = None\n            return self._dataset\n', '        if self._dataset is None:\n            if isinstance(self._orig_dataset, DaskLazyIndexer):\n                self._orig_dataset = self._orig_dataset.dataset\n            self._dataset = dask_getitem(self._orig_dataset, self.keep)\n            for transform in self.transforms:\n                self._dataset = transform(self._dataset)\n            self._orig_dataset = None\n        return self._dataset\n'),
+ 'Q4_no_lock_local_accumulation_BENIGN_RACE': ('katdal/lazy_indexer.py', '        with self._lock:\n            if self._dataset is None:\n                if isinstance(self._orig_dataset, DaskLazyIndexer):\n                    self._orig_dataset = self._orig_dataset.dataset\n                dataset = dask_getitem(self._orig_dataset, self.keep)\n                for transform in self.transforms:\n                    dataset = transform(dataset)\n                self._dataset = dataset\n                self._orig_dataset = None\n            return self._dataset\n', '        if self._dataset is None:\n            orig = self._orig_dataset\n            if isinstance(orig, DaskLazyIndexer):\n                orig = orig.dataset\n            dataset = dask_getitem(orig, self.keep)\n            for transform in self.transforms:\n                dataset = transform(dataset)\n            self._dataset = dataset\n        return self._dataset\n'),
  # ---- selection plumbing / concatenated data sets (round 2)
  'N1_seeded_C16_3_truthy_guard': ('katdal/dataset.py',
    "        if weights_keep is not None:\n            self._weights_keep = weights_keep\n        if flags_keep is not None:\n",
